@@ -166,7 +166,7 @@ func buildOne(fc fedConfig) built {
 				b.Err = fmt.Errorf("federation.requires.go: no generated stub body for Populate%sRequires:\n%s", t, s)
 				return b
 			}
-			s = strings.Replace(s, old, `return RequiresHook("Populate`+t+`Requires", reps, func(w int) { entity.Weight = w; entity.Cost = 1000 + w })`, 1)
+			s = strings.Replace(s, old, `return RequiresHook(ctx, "Populate`+t+`Requires", reps, func(w int) { entity.Weight = w; entity.Cost = 1000 + w })`, 1)
 		}
 		s = strings.Replace(s, "\t\"fmt\"\n", "", 1)
 		os.WriteFile(p, []byte(s), 0o644)
